@@ -50,6 +50,11 @@ THEOREMS = [
     "LogT.add_field_count",
     "LogT.remove_fields_spec",
     "LogT.remove_fields_order",
+    "Files.restart_links_only_seekable",
+    "Files.never_links_closed",
+    "Files.names_are_opened",
+    "Files.stream_observers_take_any_open_file",
+    "Files.restart_refuses_iff",
     "Files.isFrameCall_iff",
     "Files.isRestartCall_iff",
 ]
@@ -1240,5 +1245,178 @@ class LoggerTable(common.Suite):
         return "+".join(sorted(kinds)) + (":" + ",".join(errs) if errs else ":ok")
 
 
+# ------------------------------------------------------------------------------------------------ linking a file
+class FileLinking(common.Suite):
+    """`TextObserver.file = value` for the three observer classes and every outside a handed-over object can have (a name,
+    a path, objects with and without read/write/seek/seekable()/closed, IOBase subclasses, open and closed real files): what
+    the setter decides against `Files.link`; the restart observer must never end up with something that cannot seek"""
+
+    name = "file-linking"
+
+    def cases(self, rng, tier):
+        n = 150 if tier == "quick" else 1500
+        for i in range(n):
+            kind = rng.choice(["str", "path", "other", "other", "other", "other", "real", "real"])
+            yield {"observer": rng.choice(["Logger", "TrajectoryObserver", "RestartObserver"]), "kind": kind,
+                   "read": rng.random() < 0.4, "write": rng.random() < 0.6, "iobase": rng.random() < 0.3,
+                   "closed": rng.choice([None, False, True, True]), "seekable": rng.choice([None, None, False, True]),
+                   "seek": rng.random() < 0.5,
+                   "real": rng.choice(["StringIO", "file-w", "file-a", "file-closed", "BytesIO", "stdout", "pipe"]),
+                   "mode": rng.choice(["a", "w"])}
+
+    @staticmethod
+    def _make(case, tmp):
+        k = case["kind"]
+        if k == "str":
+            return str(tmp / "by-name.txt")
+        if k == "path":
+            return tmp / "by-path.txt"
+        if k == "real":
+            r = case["real"]
+            if r == "StringIO":
+                return io.StringIO()
+            if r == "BytesIO":
+                return io.BytesIO()
+            if r == "stdout":
+                import sys
+                return sys.stdout
+            if r == "pipe":
+                rd, wr = os.pipe()
+                os.close(rd)
+                return os.fdopen(wr, "w")   # open, writable, seekable() is False
+            f = open(tmp / "real.txt", "a" if r == "file-a" else "w")  # noqa: SIM115
+            if r == "file-closed":
+                f.close()
+            return f
+        ns = {}
+        if case["read"]:
+            ns["read"] = lambda self, *a: ""
+        if case["write"]:
+            ns["write"] = lambda self, *a: 0
+            ns["flush"] = lambda self: None
+        if case["seek"]:
+            ns["seek"] = lambda self, *a: 0
+            ns["truncate"] = lambda self, *a: 0
+        if case["seekable"] is not None:
+            sk = case["seekable"]
+            ns["seekable"] = lambda self, sk=sk: sk
+        if case["closed"] is not None and not case["iobase"]:
+            ns["closed"] = case["closed"]
+        ns["close"] = lambda self: None
+        cls = type("Handed", (io.IOBase,) if case["iobase"] else (), ns)
+        o = cls()
+        if case["iobase"] and case["closed"]:
+            io.IOBase.close(o)
+        return o
+
+    def real(self, case):
+        import sys
+
+        from ase import Atoms
+        from quansino.io.logger import Logger
+        from quansino.io.restart import RestartObserver
+        from quansino.io.trajectory import TrajectoryObserver
+
+        with tempfile.TemporaryDirectory(prefix="c16link") as d:
+            tmp = pathlib.Path(d)
+            value = self._make(case, tmp)
+            flags = None
+            if not isinstance(value, (str, pathlib.Path)):
+                sk = None
+                if hasattr(value, "seekable"):
+                    try:
+                        sk = bool(value.seekable())
+                    except ValueError:  # IOBase.seekable() of a closed object: the setter has refused it before asking
+                        sk = False
+                flags = {"read": hasattr(value, "read"), "write": hasattr(value, "write"), "iobase": isinstance(value, io.IOBase),
+                         "closed": bool(getattr(value, "closed", False)), "seekable": sk, "seek": hasattr(value, "seek")}
+
+            class Sim:
+                def to_dict(self):
+                    return {}
+
+            sim = Sim()
+            obs = None
+            try:
+                if case["observer"] == "Logger":
+                    obs = Logger(value, interval=1, mode=case["mode"])
+                elif case["observer"] == "TrajectoryObserver":
+                    obs = TrajectoryObserver(Atoms("H"), value, interval=1, mode=case["mode"])
+                else:
+                    obs = RestartObserver(sim, value, interval=1, mode=case["mode"])
+                if obs.file is value:
+                    out = "linked"
+                elif isinstance(value, (str, pathlib.Path)) and getattr(obs.file, "name", None) == str(value) \
+                        and not obs.file.closed and obs.file.mode == case["mode"]:
+                    out = "opened"
+                else:
+                    out = "other:" + repr(obs.file)[:60]
+            except ValueError as e:
+                out = "ValueError:closed" if "closed file" in str(e) else "ValueError:stream" if "non-seekable" in str(e) else "ValueError:?" + str(e)[:60]
+            except TypeError:
+                out = "TypeError"
+            finally:
+                if obs is not None and value is not sys.stdout:
+                    obs.close()
+                elif hasattr(value, "close") and value is not sys.stdout:
+                    try:
+                        value.close()
+                    except Exception:  # noqa: BLE001
+                        pass
+            can_seek = None
+            if out == "linked" and flags is not None:
+                can_seek = flags["seekable"] if flags["seekable"] is not None else flags["seek"]
+        return {"result": out, "flags": flags, "can_seek": can_seek}
+
+    def model_lines(self, case):
+        f = self._last_flags(case)
+        acc = "0" if case["observer"] == "RestartObserver" else "1"
+        if f is None:
+            return [f"flink {acc} {'str' if case['kind'] == 'str' else 'path'} 00000 -"]
+        bits = "".join("1" if f[k] else "0" for k in ("read", "write", "iobase", "closed", "seek"))
+        return [f"flink {acc} other {bits} {'-' if f['seekable'] is None else int(f['seekable'])}"]
+
+    def _last_flags(self, case):
+        # the flags are a function of the case alone (recomputed here on a throw-away object)
+        if case["kind"] in ("str", "path"):
+            return None
+        with tempfile.TemporaryDirectory(prefix="c16linkm") as d:
+            value = self._make(case, pathlib.Path(d))
+            sk = None
+            if hasattr(value, "seekable"):
+                try:
+                    sk = bool(value.seekable())
+                except ValueError:
+                    sk = False
+            f = {"read": hasattr(value, "read"), "write": hasattr(value, "write"), "iobase": isinstance(value, io.IOBase),
+                 "closed": bool(getattr(value, "closed", False)), "seekable": sk, "seek": hasattr(value, "seek")}
+            import sys
+            if value is not sys.stdout and hasattr(value, "close"):
+                try:
+                    value.close()
+                except Exception:  # noqa: BLE001
+                    pass
+            return f
+
+    def model_obs(self, case, outs):
+        w = outs[0].split()
+        return {"result": w[1] if w[0] == "ok" else outs[0]}
+
+    def oracle(self, case, obs):
+        if "exception" in obs:
+            return [("file-linking:unexpected-exception:" + obs["exception"], obs.get("message", ""))]
+        out = []
+        if case["observer"] == "RestartObserver" and obs["result"] == "linked" and obs["can_seek"] is False:
+            out.append(("file-linking:restart-holds-unseekable", f"{case} -> flags {obs['flags']}"))
+        if obs["result"] == "linked" and obs["flags"] and obs["flags"]["closed"]:
+            out.append(("file-linking:closed-file-linked", f"{case}"))
+        if obs["result"].startswith("other:"):
+            out.append(("file-linking:name-not-opened-in-mode", f"{case}: {obs['result']}"))
+        return out
+
+    def classify(self, case, obs):
+        return f"{case['observer']}:{case['kind'] if case['kind'] != 'real' else case['real']}:{obs.get('result', 'exception').split(':')[0]}"
+
+
 def suites(tier):
-    return [FileCrash(), FileSemantics(), LoggerFailedCall(), RestartFailedCall(), RunAfterClose(), LoggerTable()]
+    return [FileCrash(), FileSemantics(), LoggerFailedCall(), RestartFailedCall(), RunAfterClose(), LoggerTable(), FileLinking()]
